@@ -441,6 +441,11 @@ def c20(res, tier, rng, wd):
     cbase = e2.gen_c10(rng, 60 if thorough else 20) + e2.gen_c12(rng)[:: (4 if thorough else 12)] + e2.gen_c11(rng)[:4] \
         + e2.gen_c04(rng)[:: (10 if thorough else 30)]
     run_e2(res, "C20", e2.with_decode_variants(rng, cbase, positions=None if thorough else 3, all_levels=thorough), wd, "c20client")
+    # a level change is not an outcome: injected at every position of runs of timeouts under a limit, it must not move the
+    # point at which the connection is given up
+    lim = [s for s in e2.gen_c12(rng) if s["tag"].startswith("c12-limit") or "count-per-connection" in s["tag"]]
+    lim = lim[:: (2 if thorough else 7)]
+    run_e2(res, "C20", e2.with_decode_variants(rng, lim, positions=None, all_levels=False), wd, "c20limits", levels=False)
     run_e4(res, "C20", e4.gen_c20_server(rng, thorough), wd, "c20server")
     # level changes while the serial tasks wait to re-open their port must not move the instant of the next attempt
     run_rtu_task(res, "C20", e1.gen_rtu_task_c14(rng, thorough)[:: (1 if thorough else 3)], wd, "c20rtuserver")
